@@ -538,38 +538,54 @@ def groupingScanners (d : Fwd) (kid : KeyId) (sel : List SeriesId) : List Scanne
     if sc.seriesIDs.any (fun s => sel.contains s) then some sc else none))
   mems ++ files
 
-/-- `GetGroupingContext`: per group-by key the scanners; the selected series are narrowed to those
-some scanner of every key holds; `ErrNotFound` when none is left -/
+/-- `GetGroupingContext`, the loop over the group-by keys: per key the scanners; the selected series
+are narrowed to those some scanner of every key holds; `ErrNotFound` as soon as none is left -/
+def groupingLoop (d : Fwd) (sel : List SeriesId) : List KeyId → List SeriesId →
+    Except Err (List SeriesId × List (List Scanner))
+  | [], final => .ok (final, [])
+  | kid :: ks, final =>
+    let sc := groupingScanners d kid sel
+    let cur := sc.flatMap Scanner.seriesIDs
+    let final' := final.filter (fun s => cur.contains s)
+    if final'.isEmpty then .error .notFound
+    else
+      match groupingLoop d sel ks final' with
+      | .ok (f, scs) => .ok (f, sc :: scs)
+      | .error e => .error e
+
 def groupingContext (d : Fwd) (kids : List KeyId) (sel : List SeriesId) :
     Except Err (List SeriesId × List (List Scanner)) :=
-  kids.foldl (fun acc kid =>
-    match acc with
-    | .error e => .error e
-    | .ok (final, scs) =>
-      let sc := groupingScanners d kid sel
-      let cur := sc.flatMap Scanner.seriesIDs
-      let final' := final.filter (fun s => cur.contains s)
-      if final'.isEmpty then .error .notFound else .ok (final', scs ++ [sc])) (.ok (sel, []))
+  groupingLoop d sel kids sel
 
-/-- `BuildGroup` for one series: per key the value id written last by a scanner that holds the
-series (the slot of the key stays 0 when none does) -/
-def groupValueIds (cum : Bool) (scs : List (List Scanner)) (s : SeriesId) : List ValId :=
-  scs.map (fun sc =>
-    ((sc.flatMap (fun x => (x.read cum (s / 65536)).filter (fun e => e.1 == s))).getLast?.map (·.2)).getD 0)
+/-- `BuildGroup` for one series and one key: the value id written last by a scanner of the key that
+holds the series (the slot stays 0 when none does) -/
+def valueIdOf (cum : Bool) (sc : List Scanner) (s : SeriesId) : ValId :=
+  ((sc.flatMap (fun x => (x.read cum (s / 65536)).filter (fun e => e.1 == s))).getLast?.map (·.2)).getD 0
 
-/-- group-by over the selected series: (narrowed series, per series the value ids and their strings) -/
+/-- the grouping values of one series: per key the value id and its string (`CollectTagValues`) -/
+def valuesFor (cum : Bool) (d : Dict) (s : SeriesId) : List KeyId → List (List Scanner) → List (ValId × Option Bytes)
+  | kid :: ks, sc :: scs => (valueIdOf cum sc s, d.keyOfId kid (valueIdOf cum sc s)) :: valuesFor cum d s ks scs
+  | _, _ => []
+
+/-- `metadataLookup.groupBy`: the tag key ids of the group-by keys -/
+def lookupKeys (st : State) (m : Metric) : List Bytes → Option (List KeyId)
+  | [] => some []
+  | k :: t =>
+    match Map.lookup st.schema (m, k), lookupKeys st m t with
+    | some kid, some r => some (kid :: r)
+    | _, _ => none
+
+/-- group-by over the selected series: the narrowed series, each with its grouping values -/
 def groupBy (F : Flags) (st : State) (m : Metric) (keys : List Bytes) (sel : List SeriesId) :
     Except Err (List (SeriesId × List (ValId × Option Bytes))) :=
-  match keys.mapM (fun k => Map.lookup st.schema (m, k)) with
+  match lookupKeys st m keys with
   | none => .error .keyNotFound
   | some kids =>
     if sel.isEmpty then .ok []
     else
       match groupingContext st.fwd kids sel with
       | .error e => .error e
-      | .ok (final, scs) =>
-        .ok (final.map (fun s =>
-          (s, ((groupValueIds F.lutCumulative scs s).zip kids).map (fun (id, kid) => (id, st.dict.keyOfId kid id)))))
+      | .ok (final, scs) => .ok (final.map (fun s => (s, valuesFor F.lutCumulative st.dict s kids scs)))
 
 /-! ### reference semantics (DESIGN.md, C10) -/
 
@@ -654,7 +670,7 @@ def leafQuery (F : Flags) (M : Matcher) (st : State) (m : Metric) (keys : List B
     Except Err LeafResult :=
   if !metricKnown st m then .error .metricNotFound
   else
-    match keys.mapM (fun k => Map.lookup st.schema (m, k)) with
+    match lookupKeys st m keys with
     | none => .error .keyNotFound
     | some _ =>
       match query F M st m c with
@@ -685,5 +701,16 @@ def writesOf : List Op → List (Metric × Tags)
   | [] => []
   | .write m t :: r => (m, t) :: writesOf r
   | .place _ :: r => writesOf r
+
+end LinVerif.TagFilter
+
+namespace LinVerif.TagFilter
+
+/-- reference for group-by: position by position the returned string is the series' value of the
+grouping key -/
+def groupValuesOK (t : Tags) : List Bytes → List (ValId × Option Bytes) → Prop
+  | [], [] => True
+  | k :: ks, r :: rs => (∃ v, (k, v) ∈ t ∧ r.2 = some v) ∧ groupValuesOK t ks rs
+  | _, _ => False
 
 end LinVerif.TagFilter
